@@ -790,6 +790,10 @@ func flameRegister(f *flamego.Flame, method, txt string, idx int, hit *int, seen
 		// handlers own the map they are given: what one request leaves in it must never reach another request
 		c.Params()["left-behind-by-an-earlier-request"] = txt
 	}
+	if strings.Contains(method, ",") {
+		rt = f.Routes(txt, method, h) // a method list: one Route object for all of them
+		return
+	}
 	rt = f.Route(method, txt, []flamego.Handler{h})
 	return
 }
